@@ -252,8 +252,29 @@ def s5b(ctx, rep, clause="S5"):
     require_guard(ctx, rep, clause, f, "Tuner._update_running_trials: scheduler.on_trial_complete | status == completed", nodes,
                   [(f"{sv} == Status.completed", lambda a: a[0] == "eq" and a[3] is True and {a[1], a[2]} == {sv, "Status.completed"})],
                   "the scheduler is told that a trial completed which has not (or is not told when one has)")
-    # "the scheduler paused it" overrides "the job completed": decided on the record of this call's decisions (the returned dict)
     from ..engine import deref
+    # the result the scheduler is given at completion is the last one it was given as a result: every result handed to
+    # scheduler.on_trial_result is recorded under the trial's id on the way there, and on_trial_complete reads that record
+    rec = "last_seen_result_per_trial"
+    cfg0 = cfg_of(f)
+    otr = [n for n, c in call_nodes(ctx, f, lambda c: fn_name(c) == "on_trial_result" and "scheduler" in U(c.func))]
+    if len(otr) != 1:
+        raise AnchorError("Tuner._update_running_trials: scheduler.on_trial_result call not found")
+    oc = [c for x in cfg0.node_walk(otr[0]) if isinstance(x, ast.Call) and fn_name(x) == "on_trial_result" and "scheduler" in U(x.func) for c in [x]][0]
+    resv = kwarg(oc, "result", 1)
+    stores = {n.id for n in cfg0.nodes if n.kind == "stmt" and isinstance(n.ast, ast.Assign) and any(
+        isinstance(t, ast.Subscript) and U(deref(f, t.value)).endswith("." + rec) for t in n.ast.targets) and resv is not None and U(deref(f, n.ast.value)) == U(deref(f, resv))}
+    hdr = [l.id for l in cfg0.nodes if l.kind == "for" and any(x is oc for st_ in stmts_in(l.ast.body) for x in ast.walk(st_))]
+    okr = bool(stores) and bool(hdr) and cfg0.path([hdr[-1]], otr[0], deleted=stores, skip_labels=("exc",)) is None
+    rep.put(okr, clause, "must_precede", f"Tuner._update_running_trials: the result given to the scheduler is recorded in {rec} first", f, oc, "",
+            f"a result reaches scheduler.on_trial_result without being stored in {rec}[trial_id]: on_trial_complete is later given an older "
+            "result than the last one the scheduler saw (or the run aborts with 'no metrics got observed')")
+    cc = [c for n, c in call_nodes(ctx, f, lambda c: fn_name(c) == "on_trial_complete" and "scheduler" in U(c.func))]
+    lastv = deref(f, argn(cc[0], 1)) if cc and argn(cc[0], 1) is not None else None
+    okc = lastv is not None and isinstance(lastv, ast.Subscript) and U(lastv.value).endswith("." + rec)
+    rep.put(okc, clause, "agreement", f"Tuner._update_running_trials: scheduler.on_trial_complete is given {rec}[trial_id]", f, cc[0] if cc else None, "",
+            "the completion call does not pass the last result delivered for this trial")
+    # "the scheduler paused it" overrides "the job completed": decided on the record of this call's decisions (the returned dict)
     rvn = [r.value.id for r in returns_of(f) if isinstance(r.value, ast.Name)]
     cfg = cfg_of(f)
     ov = [n for n in cfg.nodes if n.kind == "stmt" and isinstance(n.ast, ast.Assign) and U(n.ast.targets[0]) == sv and U(n.ast.value) == "Status.paused"
@@ -472,6 +493,51 @@ def s10(ctx, rep, clause="S10"):
                 "batch, trials already started are never tracked, polled or counted", witness=cfg.describe_path([nid] + p) if p else None)
 
 
+def s11(ctx, rep, clause="S1"):
+    """simulated workers: the busy set mirrors the events - a trial becomes busy when its start event is processed and is
+    not busy any more once its completion or stop event has been processed; nobody else writes the set"""
+    P = ctx.P
+    c = P.cls("SimulatorBackend")
+    attr = "_busy_trial_ids"
+    want = {"_process_start_event": "add", "_process_complete_event": "remove", "_process_stop_event": "remove"}
+    n = 0
+    for m in c.methods.values():
+        cm = cfg_of(m)
+        ops = [(nd, x) for nd in cm.nodes for x in cm.node_walk(nd.id) if isinstance(x, ast.Call) and isinstance(x.func, ast.Attribute)
+               and U(x.func.value).endswith("." + attr) and x.func.attr in ("add", "remove", "discard", "clear", "update", "pop", "difference_update")]
+        stores = [nd for nd in cm.nodes if nd.kind == "stmt" and isinstance(nd.ast, (ast.Assign, ast.AugAssign)) and any(
+            U(t).endswith("." + attr) for t in (nd.ast.targets if isinstance(nd.ast, ast.Assign) else [nd.ast.target]))]
+        if m.name not in want:
+            if ops or (stores and m.name not in ("__init__", "__setstate__")):
+                rep.bad(clause, "who_may_write", f"SimulatorBackend.{attr} is changed only by the event handlers", m, (ops[0][1] if ops else stores[0].ast),
+                        f"{m.name} changes the set of busy workers outside the processing of a start / completion / stop event")
+            continue
+        n += 1
+        kind = want[m.name]
+        pid = m.params[0] if m.params and m.params[0] != "self" else (m.params[1] if len(m.params) > 1 else None)
+        good = {nd.id for nd, x in ops if (x.func.attr == kind or (kind == "remove" and x.func.attr == "discard")) and argn(x, 0) is not None
+                and U(argn(x, 0)) == "trial_id"}
+        wrong = [x for nd, x in ops if nd.id not in good]
+        if kind == "add":
+            ok = bool(good) and not wrong and cm.path([cm.entry], cm.exit, deleted=good, skip_labels=("exc",)) is None
+            why = "a start event can be processed without the trial becoming busy: the worker it occupies is not counted"
+        else:
+            # every normal path either removes the id or has established that it is not in the set
+            def edge_ok(lab):
+                if lab and lab[0] == "cond":
+                    return not any(at[0] == "in" and at[1] == "trial_id" and at[2].endswith("." + attr) and at[3] is False
+                                   for at in atoms_of(lab[1], lab[2]))
+                return True
+            ok = bool(good) and not wrong and cm.path([cm.entry], cm.exit, deleted=good, skip_labels=("exc",), edge_ok=edge_ok) is None
+            why = "a trial can stay in the busy set after its run has ended: its worker is never freed (or a running trial is freed early)"
+        rep.put(ok, clause, "must_follow", f"SimulatorBackend.{m.name}: trial_id is {'added to' if kind == 'add' else 'removed from'} {attr} on every path", m,
+                wrong[0] if wrong else None, "", why)
+    if n != 3:
+        raise AnchorError("SimulatorBackend: the three event handlers that maintain the busy set were not all found")
+    from . import c02
+    c02.event_dispatch(ctx, rep, clause)
+
+
 def run(ctx, rep, tier="quick"):
     s1(ctx, rep)
     s2(ctx, rep)
@@ -484,6 +550,7 @@ def run(ctx, rep, tier="quick"):
     s8(ctx, rep)
     s9(ctx, rep)
     s10(ctx, rep)
+    s11(ctx, rep)
     from .common import dead_store_clause
     dead_store_clause(ctx, rep, "S3", ["syne_tune/backend/trial_backend.py", "syne_tune/backend/simulator_backend/simulator_backend.py", "syne_tune/backend/simulator_backend/events.py", "syne_tune/tuner.py", "syne_tune/blackbox_repository/simulated_tabular_backend.py"],
                       "the update is applied to a local instead of the stored record (e.g. the status of a trial that ended without a "
